@@ -43,6 +43,8 @@ type Sched struct {
 	// OnAcquire / OnRelease are called by the acquiring / releasing managed thread while it owns m.
 	OnAcquire func(t *Thread, m *Mutex)
 	OnRelease func(t *Thread, m *Mutex)
+	// OnSpawn is called by a managed thread that creates another one through verifsched.Go.
+	OnSpawn func(parent, child *Thread)
 	// KeepLog makes the scheduler append "L:<thread>" / "U:<thread>" / "G:<thread>" lines to Log.
 	KeepLog bool
 	Log     []string
@@ -163,6 +165,9 @@ func Go(f func()) {
 	if s.KeepLog {
 		s.Log = append(s.Log, "G:"+t.Name+">"+nt.Name)
 	}
+	if s.OnSpawn != nil {
+		s.OnSpawn(t, nt)
+	}
 }
 
 func (s *Sched) yield(t *Thread) {
@@ -259,6 +264,19 @@ func (s *Sched) Stuck() []string {
 		}
 	}
 	return out
+}
+
+// Live returns the number of threads that have not ended.
+func (s *Sched) Live() int {
+	s.mu.Lock()
+	defer s.mu.Unlock()
+	n := 0
+	for _, t := range s.threads {
+		if !t.done {
+			n++
+		}
+	}
+	return n
 }
 
 // NThreads returns the number of threads created so far.
